@@ -233,7 +233,13 @@ func c09Interactive(x *xctx) *violation {
 	if sw.writerFail {
 		w.failAll = errors.New("open: permission denied")
 	}
-	o := &plugin.Options{Flagset: newFlags([]string{"prof.pb.gz"}), UI: ui, Writer: w, Sym: nopSym{}, Obj: obj, HTTPTransport: failTransport{}}
+	// the session may have been started with option flags
+	var sessFlags []string
+	for i, nfl := 0, t.Choose(K, 3); i < nfl; i++ {
+		sessFlags = append(sessFlags, []string{"-sample_index=" + []string{"0", "1", "2", "7", "-1", "samples", "99999999999"}[t.Choose(K, 7)], "-nodecount=" + c09Value(t), "-focus=" + c09Value(t), "-tagfocus=" + c09Value(t), "-unit=" + c09Value(t), "-mean", "-lines", "-divide_by=0", "-trim=false", "-call_tree"}[t.Choose(K, 10)])
+	}
+	x.tr("flags %q", sessFlags)
+	o := &plugin.Options{Flagset: newFlags(append(sessFlags, "prof.pb.gz")), UI: ui, Writer: w, Sym: nopSym{}, Obj: obj, HTTPTransport: failTransport{}}
 	var perr error
 	simos.StartLog()
 	res := simrt.Exec(simrt.Config{Tape: t, Strategy: simrt.StratRunToBlock}, func() { perr = PProf(o) })
